@@ -782,3 +782,239 @@ func c16Delegate(rc *RuleCtx) {
 		}
 	}
 }
+
+func init() {
+	register(&Rule{ID: "C12.features", Floor: 1,
+		Text: "FailFS advertises exactly the features of its base: its constructor stores baseFS.Features() unchanged (code that asks HasFeature before it acts - RndTree, the helpers that need symbolic or hard links - must behave through the wrapper as on the base)",
+		Run:  c12Features})
+}
+
+func c12Features(rc *RuleCtx) {
+	n := 0
+	for _, f := range rc.C.srcFuncs("failfs") {
+		if f.Signature.Recv() != nil || f.Parent() != nil {
+			continue
+		}
+		eachCall(f, func(ci ssa.CallInstruction) {
+			fn := calleeFunc(ci)
+			if fn == nil || fn.Name() != "SetFeatures" {
+				return
+			}
+			n++
+			cons := fmt.Sprintf("%s SetFeatures#%d", funcName(f), n)
+			args := callArgs(ci)
+			if len(args) != 1 {
+				return
+			}
+			c, _ := resultOfCall(resolve1(args[0]))
+			if c != nil && calleeFunc(c) != nil && calleeFunc(c).Name() == "Features" && c.Common().IsInvoke() {
+				if p, ok := strip(c.Common().Value).(*ssa.Parameter); ok && p.Parent() == f {
+					rc.good(cons, ci.Pos(), "SetFeatures(baseFS.Features())")
+					return
+				}
+			}
+			rc.bad(cons, ci.Pos(), "the features stored by the constructor are not the base's features unchanged ("+prettyVal(args[0], 0)+"): the wrapper is distinguishable from its base by HasFeature")
+		})
+	}
+	if n == 0 {
+		rc.anchor("failfs constructor: SetFeatures call")
+	}
+}
+
+func init() {
+	register(&Rule{ID: "C03.first", Floor: 1,
+		Text: "MemFS.Remove tells the caller that a directory is not empty only after the write-and-search check on the containing directory succeeded: every path to the return of the not-empty error has seen checkPermission(OpenWrite|OpenLookup) == true on the directory returned by the walk (rmdir(2) answers EACCES first; the other order tells a caller who may not change a directory whether its sub-directories are empty)",
+		Run:  c03First})
+}
+
+func c03First(rc *RuleCtx) {
+	f := rc.C.method("memfs", "MemFS", "Remove")
+	if f == nil {
+		rc.anchor("memfs.(*MemFS).Remove")
+		return
+	}
+	wr, lk := openModeBit(rc.C, "OpenWrite"), openModeBit(rc.C, "OpenLookup")
+	ei := errResultIndex(f.Signature)
+	var parent ssa.Value
+	eachCall(f, func(ci ssa.CallInstruction) {
+		if c, ok := ci.(*ssa.Call); ok {
+			if fn := calleeFunc(c); fn != nil && nm(fn) == "searchNode" {
+				for _, u := range referrersOf(c) {
+					if e, ok := u.(*ssa.Extract); ok && e.Index == 0 {
+						parent = e
+					}
+				}
+			}
+		}
+	})
+	if parent == nil || ei < 0 || wr < 0 || lk < 0 {
+		rc.anchor("memfs.(*MemFS).Remove: walk / permission bits")
+		return
+	}
+	keys, _ := nonFreshKeys(parent)
+	keys = append(keys, objKeyOf(parent).s)
+	n := 0
+	for _, r := range returnsOf(f) {
+		notEmpty := false
+		for _, l := range errLeaves(rc.C, r.Results[ei], 0) {
+			if strings.Contains(l.name, "DirNotEmpty") {
+				notEmpty = true
+			}
+		}
+		if !notEmpty {
+			continue
+		}
+		n++
+		cons := fmt.Sprintf("%s not-empty answer#%d after the permission check", funcName(f), n)
+		paths, complete := pathsTo(f, r, 3000)
+		ok := complete && len(paths) > 0
+		for _, p := range paths {
+			if !feasiblePath(p) {
+				continue
+			}
+			if !permCheckedOnPath(p, keys, wr|lk, nil) {
+				ok = false
+			}
+		}
+		if ok {
+			rc.good(cons, r.Pos(), "every path has seen the write-and-search check on the containing directory succeed")
+		} else {
+			rc.bad(cons, r.Pos(), "the not-empty error is returned on a path that has not established write and search permission on the containing directory: a caller who may not change that directory learns whether the sub-directory is empty, where rmdir(2) answers EACCES")
+		}
+	}
+	if n == 0 {
+		rc.anchor("memfs.(*MemFS).Remove: return of the not-empty error")
+	}
+}
+
+func init() {
+	register(&Rule{ID: "C04.evalerr", Floor: 1,
+		Text: "when EvalSymlinks fails, the error names what the walk had resolved when it stopped (a path taken from the walk's iterator, as filepath.EvalSymlinks names the link-free prefix ending at the failing element), not the caller's unresolved argument",
+		Run:  c04EvalErr})
+}
+
+func c04EvalErr(rc *RuleCtx) {
+	f := rc.C.method("memfs", "MemFS", "EvalSymlinks")
+	if f == nil {
+		rc.anchor("memfs.(*MemFS).EvalSymlinks")
+		return
+	}
+	n := 0
+	eachInstr(f, func(in ssa.Instruction) {
+		st, ok := in.(*ssa.Store)
+		if !ok {
+			return
+		}
+		fa, ok := st.Addr.(*ssa.FieldAddr)
+		if !ok || fieldName(fa.X.Type(), fa.Field) != "Path" || !isNamed(fa.X.Type(), "io/fs", "PathError") {
+			return
+		}
+		n++
+		cons := fmt.Sprintf("%s error path#%d", funcName(f), n)
+		good := true
+		what := ""
+		for _, o := range originsOf(st.Val) {
+			c, isCall := o.(*ssa.Call)
+			if isCall {
+				if r := callRecv(c); r != nil {
+					if nn := namedOf(r.Type()); nn != nil && nn.Obj().Name() == "PathIterator" {
+						continue
+					}
+				}
+			}
+			good = false
+			what = prettyVal(o, 0)
+		}
+		if good {
+			rc.good(cons, st.Pos(), "taken from the walk's iterator")
+		} else {
+			rc.bad(cons, st.Pos(), "the error names "+what+" instead of the path the walk had resolved when it stopped: after a link was followed, or when an inner element is missing, the caller is told about a path that is not the one that failed")
+		}
+	})
+	if n == 0 {
+		rc.anchor("memfs.(*MemFS).EvalSymlinks: PathError construction")
+	}
+}
+
+func init() {
+	register(&Rule{ID: "C17.sepsel", Floor: 1, Also: []string{"C05", "C13"},
+		Text: "OSTypeFn.SetOSType stores a path separator chosen from the very OS type it stores: the comparison that selects '\\\\' tests the value that is assigned to the osType field (after the fall-back to the host type of a build without the tag), so that OSType() and PathSeparator() can never disagree",
+		Run:  c17SepSel})
+}
+
+func c17SepSel(rc *RuleCtx) {
+	f := rc.C.method("avfs", "OSTypeFn", "SetOSType")
+	cons := "avfs.(*OSTypeFn).SetOSType separator follows the stored type"
+	if f == nil {
+		rc.anchor(cons)
+		return
+	}
+	var typeVal ssa.Value
+	var sepStore *ssa.Store
+	eachInstr(f, func(in ssa.Instruction) {
+		st, ok := in.(*ssa.Store)
+		if !ok {
+			return
+		}
+		fa, ok := st.Addr.(*ssa.FieldAddr)
+		if !ok {
+			return
+		}
+		switch fieldName(fa.X.Type(), fa.Field) {
+		case "osType":
+			typeVal = st.Val
+		case "pathSeparator":
+			sepStore = st
+		}
+	})
+	if typeVal == nil || sepStore == nil {
+		rc.anchor(cons + " (stores to osType / pathSeparator)")
+		return
+	}
+	// the separator is a phi of constants selected by one or more comparisons: each of them must test the stored type
+	var conds []ssa.Value
+	seen := map[ssa.Value]bool{}
+	var walk func(v ssa.Value)
+	walk = func(v ssa.Value) {
+		v = strip(v)
+		if seen[v] {
+			return
+		}
+		seen[v] = true
+		if ph, ok := v.(*ssa.Phi); ok {
+			b := ph.Block()
+			for _, p := range b.Preds {
+				for q := p; q != nil; q = q.Idom() {
+					if iff, ok := q.Instrs[len(q.Instrs)-1].(*ssa.If); ok {
+						conds = append(conds, iff.Cond)
+						break
+					}
+					if len(q.Preds) != 1 {
+						break
+					}
+				}
+			}
+			for _, e := range ph.Edges {
+				walk(e)
+			}
+		}
+	}
+	walk(sepStore.Val)
+	if len(conds) == 0 {
+		rc.bad(cons, sepStore.Pos(), "the separator stored does not depend on a test of the OS type")
+		return
+	}
+	tv := strip(typeVal)
+	for _, c := range conds {
+		v, _ := normCond(c, true)
+		b, ok := v.(*ssa.BinOp)
+		if !ok {
+			continue
+		}
+		if _, isC := strip(b.Y).(*ssa.Const); isC && strip(b.X) != tv {
+			rc.bad(cons, sepStore.Pos(), "the separator is selected by a test of "+prettyVal(b.X, 0)+", which is not the value stored as the OS type ("+prettyVal(typeVal, 0)+"): when the requested type is refused and the host type is stored instead, the object reports one OS type and splits paths with the separator of the other")
+			return
+		}
+	}
+	rc.good(cons, sepStore.Pos(), "the separator is selected by comparing the value that is stored as the OS type")
+}
